@@ -57,6 +57,8 @@ type Work struct {
 	Rebind    bool   `json:"rebind,omitempty"`     // the names of started functions are rebound right after the go statement (the callee is evaluated by the caller, at the go statement)
 	Relay     bool   `json:"relay,omitempty"`      // (without a worker pool) one goroutine per item, all started on one parameterless function, moves the items from the last channel to `res`
 	TypeAlias bool   `json:"type_alias,omitempty"` // channels are made by a helper that names the element type locally (make(type El, sample)); the helper is first called for another element type
+	Dispatch  bool   `json:"dispatch,omitempty"`   // (without pool / relays) a for-in over the last channel starts one goroutine per item, passing the loop variable
+	Implicit  int    `json:"implicit,omitempty"`   // >0: a last hop written as the implicit relay `dst <- src` (one item of src is forwarded); 2: dst is a chan interface
 	Shadow    bool   `json:"shadow,omitempty"`     // outer variables named like the for-in loop variables exist (a for-in variable is a fresh binding per loop)
 }
 
@@ -126,6 +128,10 @@ func (Prop) Gen(seed int64, tier string) *harness.Case {
 		}
 	}
 	w.Relay = w.Workers <= 1 && r.Intn(5) == 0
+	w.Dispatch = w.Workers <= 1 && !w.Relay && r.Intn(5) == 0
+	if r.Intn(5) == 0 {
+		w.Implicit = 1 + r.Intn(2)
+	}
 	w.TypeAlias = w.Elem != "interface" && r.Intn(4) == 0
 	w.Prelude = r.Intn(5) == 0
 	w.Rebind = r.Intn(3) == 0
@@ -250,9 +256,15 @@ func fwdValue(v interface{}) interface{} {
 // relays: the per-item relay stage is rendered (never together with a worker pool).
 func (w *Work) relays() bool { return w.Relay && w.Workers <= 1 }
 
+// dispatches: the goroutine-per-item stage is rendered.
+func (w *Work) dispatches() bool { return w.Dispatch && w.Workers <= 1 && !w.Relay }
+
+// unordered: the order in which items reach the final consumer is not defined.
+func (w *Work) unordered() bool { return w.Workers > 1 || w.relays() || w.dispatches() }
+
 // switchConsumer: the final consumer is `switch <-ch { case a, b: ... }` in a counted loop (ConsForm 3).
 func (w *Work) switchConsumer() bool {
-	return w.ConsForm == 3 && w.Elem == "int64" && !w.Nils && w.Workers <= 1 && w.HostDrain != 1 && !w.Relay
+	return w.ConsForm == 3 && w.Elem == "int64" && !w.Nils && w.Workers <= 1 && w.HostDrain != 1 && !w.Relay && !w.Dispatch && w.Implicit == 0
 }
 
 // wantClasses is what the switch consumer must count.
@@ -353,7 +365,7 @@ func Render(w *Work) string {
 	for i := range w.Bufs {
 		fmt.Fprintf(&b, "cl%d = false\n", i)
 	}
-	b.WriteString("clres = false\n")
+	b.WriteString("clres = false\nclrl = false\n")
 	if w.Shadow {
 		// only for consumers written as for-in: the other two forms assign, and an assignment to an
 		// existing outer name would make the goroutines share that variable by the script's own doing
@@ -505,6 +517,29 @@ func Render(w *Work) string {
 		fmt.Fprintf(&b, "for wk = 0; wk < %d; wk++ { go relay() }\n", tot)
 		fmt.Fprintf(&b, "go func() {\nfor k = 0; k < %d; k++ { <-wd }\nclres = true\nclose(res)\n}()\n", tot)
 		last = "res"
+	} else if w.dispatches() {
+		// a goroutine per item, started from inside the for-in with the loop variable as argument: the argument
+		// is evaluated at the go statement, so each goroutine has the item of its own iteration
+		tot := 0
+		for _, n := range w.Items {
+			tot += n
+		}
+		fmt.Fprintf(&b, "res = make(chan %s, 2)\nwd = make(chan int64)\n", w.Elem)
+		b.WriteString("func handle(x) {\nres <- x\nwd <- 1\n}\n")
+		fmt.Fprintf(&b, "go func() {\nfor dv in %s { go handle(dv) }\nexited(\"%s\", cl%d)\nfor k = 0; k < %d; k++ { <-wd }\nclres = true\nclose(res)\n}()\n", last, last, stages-1, tot)
+		last = "res"
+	}
+	if w.Implicit > 0 {
+		tot := 0
+		for _, n := range w.Items {
+			tot += n
+		}
+		el := w.Elem
+		if w.Implicit == 2 {
+			el = "interface"
+		}
+		fmt.Fprintf(&b, "rl = make(chan %s, 1)\ngo func() {\nfor k = 0; k < %d; k++ { rl <- %s }\nclrl = true\nclose(rl)\n}()\n", el, tot, last)
+		last = "rl"
 	}
 	if w.HostDrain == 1 {
 		// the run ends here, the goroutines go on: the host receives from the returned channel
@@ -553,6 +588,8 @@ func Render(w *Work) string {
 	}
 	if w.switchConsumer() {
 		// count-based loop: nothing to say about "ended before close"
+	} else if last == "rl" {
+		b.WriteString("exited(\"rl\", clrl)\n")
 	} else if last == "res" {
 		b.WriteString("exited(\"res\", clres)\n")
 	} else {
@@ -721,8 +758,11 @@ func (Prop) Run(t *testing.T, c *harness.Case, verbose bool) *harness.Result {
 		// end a livelock. It must never bind on a run that makes progress (fan-out adds a hop, sleeps and
 		// starved schedules add steps): 20x what the longest clean run of the thorough tier needed.
 		hops := stages + 1
-		if w.Workers > 1 || w.relays() {
+		if w.unordered() {
 			hops += 2
+		}
+		if w.Implicit > 0 {
+			hops++
 		}
 		budget := 1200*(total*hops+len(w.Items)+hops+w.Workers+2) + 8000
 		sim = simrt.New(c.Choices, budget)
@@ -874,7 +914,7 @@ func judge(wp *Work, got []interface{}, probes map[string]interface{}, mainVal i
 		// through the stages' conversion and transformation - not what a model of the script's loops
 		// predicts: how many times a loop runs is another property's business.
 		exp := expectedFromSent(&w, probes)
-		if w.Workers > 1 || w.relays() {
+		if w.unordered() {
 			// fan-out: order across workers is not defined; every item exactly once, exact type
 			want := map[interface{}]int{}
 			for _, seq := range exp {
@@ -1165,6 +1205,16 @@ func (Prop) Shrink(c *harness.Case) []*harness.Case {
 	if w.Relay {
 		nw := cp()
 		nw.Relay = false
+		emit(nw)
+	}
+	if w.Dispatch {
+		nw := cp()
+		nw.Dispatch = false
+		emit(nw)
+	}
+	if w.Implicit > 0 {
+		nw := cp()
+		nw.Implicit = 0
 		emit(nw)
 	}
 	if w.TypeAlias {
